@@ -49,7 +49,7 @@ func init() {
 
 var c16Cmds = []string{"view", "view-raw", "diff", "copy", "sum", "sum-copy", "sum-diff", "generate"}
 var c16Windows = []string{"default", "past", "future", "beyond-archive0", "beyond-all", "degenerate", "inverted"}
-var c16TextOuts = []string{"none", "stdout", "file", "missing-dir", "directory", "dev-full"}
+var c16TextOuts = []string{"none", "stdout", "file", "missing-dir", "directory", "dev-full", "stdout-full"}
 var c16Envs = []string{"ok", "src-missing", "src-truncated", "src-other-layout", "src-other-layout-points", "sources-differ-in-points", "src-corrupt-last-archive", "dest-other-layout-points", "dest-unwritable", "dest-missing", "dest-corrupt-method", "generate-dest-exists", "generate-no-fill"}
 
 type c16World struct {
@@ -214,7 +214,7 @@ func c16Eval(c *fw.Ctx, k c16Case) (sig, desc string, nontrivial bool, outcome s
 	textOut := ""
 	outFile := filepath.Join(w.root, "out.txt")
 	switch k.TextOut {
-	case "stdout":
+	case "stdout", "stdout-full":
 		textOut = "-"
 	case "file":
 		textOut = outFile
@@ -276,7 +276,20 @@ func c16Eval(c *fw.Ctx, k c16Case) (sig, desc string, nontrivial bool, outcome s
 	}
 	var err error
 	var pn, stdout string
-	stdout = WithStdout(c.Dir, func() { err, pn = RunCommand(w.now, cmd) })
+	if k.TextOut == "stdout-full" {
+		// the standard output itself cannot be written (a full device, a closed pipe)
+		if full, ferr := os.OpenFile("/dev/full", os.O_WRONLY, 0); ferr == nil {
+			old := os.Stdout
+			os.Stdout = full
+			err, pn = RunCommand(w.now, cmd)
+			os.Stdout = old
+			full.Close()
+		} else {
+			return "", "", false, "no-dev-full"
+		}
+	} else {
+		stdout = WithStdout(c.Dir, func() { err, pn = RunCommand(w.now, cmd) })
+	}
 	text := ""
 	if k.TextOut == "file" {
 		text = readAndRemove(outFile)
@@ -289,7 +302,7 @@ func c16Eval(c *fw.Ctx, k c16Case) (sig, desc string, nontrivial bool, outcome s
 	if pn != "" {
 		return "C16/" + k.Cmd + "/panic", ctx + ": " + firstLine(pn), true, outcome
 	}
-	if (k.Cmd == "diff" || k.Cmd == "sum-diff") && destMissing && fault == "" && k.TextOut != "missing-dir" && k.TextOut != "directory" && k.TextOut != "dev-full" {
+	if (k.Cmd == "diff" || k.Cmd == "sum-diff") && destMissing && fault == "" && k.TextOut != "missing-dir" && k.TextOut != "directory" && k.TextOut != "dev-full" && k.TextOut != "stdout-full" {
 		// a missing destination is a reported difference, or (with a second fault in the same row) an error - never success
 		if cls == "nil" {
 			return "C16/" + k.Cmd + "/silent-success/destination-missing", ctx + ": reported success although the destination does not exist", true, outcome
@@ -300,7 +313,7 @@ func c16Eval(c *fw.Ctx, k c16Case) (sig, desc string, nontrivial bool, outcome s
 	switch {
 	case k.TextOut == "missing-dir" || k.TextOut == "directory":
 		fault = "text-out-cannot-be-opened"
-	case k.TextOut == "dev-full":
+	case k.TextOut == "dev-full" || k.TextOut == "stdout-full":
 		fault = "text-out-cannot-be-written"
 	case usesSrc && srcBroken:
 		fault = "input-" + strings.TrimPrefix(k.Env, "src-")
